@@ -205,9 +205,9 @@ func (w *world) connOf(name string) bungeecord.ServerConnection {
 }
 func (w *world) ConnectedServer() bungeecord.ServerConnection { return w.connOf(w.requester) }
 
-// PlayerConnectedServer is not part of bungeecord.Providers today; it is here so that an implementation
+// ConnectedServerOf is not part of bungeecord.Providers today; it is here so that an implementation
 // that needs another player's backend connection (ForwardToPlayer, GetPlayerServer) has something to call.
-func (w *world) PlayerConnectedServer(p bungeecord.Player) bungeecord.ServerConnection {
+func (w *world) ConnectedServerOf(p bungeecord.Player) bungeecord.ServerConnection {
 	if p == nil {
 		return nil
 	}
